@@ -12,7 +12,7 @@ import gaddlemaps
 
 REF_KINDS = ("tree", "tree", "chain", "star", "cyclic", "forest")
 GEOMS = ["generic", "generic", "generic", "axis-x", "axis-y", "axis-z", "diagonal",
-         "integer", "mixed"]
+         "integer", "mixed", "near-collinear"]
 
 
 def anchors_of(n, edges):
@@ -38,6 +38,8 @@ def classify_anchors(pos, edges):
             out[a] = "collinear"
         elif gen.triple_sine(pos[a], pos[n1], pos[n2]) >= 1e-3:
             out[a] = "generic"
+        elif gen.triple_sine(pos[a], pos[n1], pos[n2]) >= 5e-6:
+            out[a] = "near"          # clearly not collinear in double precision, but close
         else:
             out[a] = "grey"
     return out
@@ -49,8 +51,29 @@ def ref_geometry(n, edges, cls, rng):
         return gen.walk_geometry(n, edges, rng)
     if cls in gen.LINE_CLASSES:
         return gen.line_geometry(n, cls, rng)
-    # mixed: generic everywhere except one anchor triple put exactly on a lattice line
     triples = gen.anchor_triples(n, edges)
+    if cls == "near-collinear":
+        # generic everywhere except one anchor whose two frame neighbours make an angle
+        # with sine in [1e-5, 1e-3] (straight or folded): NOT collinear, full equality applies
+        for _ in range(200):
+            pos = gen.walk_geometry(n, edges, rng, spread=0.5)
+            a, n1, n2 = triples[int(rng.integers(0, len(triples)))]
+            u = gen.unit(rng)
+            w = np.cross(u, gen.unit(rng))
+            w /= np.linalg.norm(w)
+            phi = 10.0 ** rng.uniform(-5, -3)
+            sign = -1.0 if rng.random() < 0.7 else 1.0
+            pos[n1] = pos[a] + rng.uniform(0.1, 0.5) * u
+            pos[n2] = pos[a] + rng.uniform(0.1, 0.5) * (sign * np.cos(phi) * u + np.sin(phi) * w)
+            dmat = np.sqrt(((pos[:, None] - pos[None]) ** 2).sum(-1)) + np.eye(n) * 10
+            if dmat.min() < 1e-2:
+                continue
+            kinds = classify_anchors(pos, edges)
+            if "grey" in kinds.values() or "near" not in kinds.values():
+                continue
+            return pos
+        raise RuntimeError("near-collinear geometry failed")
+    # mixed: generic everywhere except one anchor triple put exactly on a lattice line
     for _ in range(200):
         pos = gen.walk_geometry(n, edges, rng)
         a, n1, n2 = triples[int(rng.integers(0, len(triples)))]
@@ -110,9 +133,12 @@ def ref_tgt_case(draw, nref=(3, 25), ntgt=(1, 30), geoms=GEOMS, nres_max=1,
     cls = draw(st.sampled_from(geoms)) if n >= 3 else "generic"
     rng = np.random.default_rng(draw(gen.SEEDS))
     rpos = ref_geometry(n, ref["edges"], cls, rng)
-    if draw(st.integers(0, 3)) == 0:          # shift the whole pair to box scale
+    if draw(st.integers(0, 3)) == 0 and cls != "near-collinear":   # shift the whole pair to box scale
         rpos = rpos + np.round(rng.uniform(-50, 50, 3) * 8) / 8
-    tpos = target_geometry(m, rpos, draw(st.sampled_from(placements)), rng)
+    placement = draw(st.sampled_from(placements))
+    if cls == "near-collinear":
+        placement = "near"           # keeps the conditioning of the near-collinear frame inside the tolerance
+    tpos = target_geometry(m, rpos, placement, rng)
     return {"geom": cls, "s": draw(scale_factor()),
             "ref": gen.with_coords(ref, rpos), "tgt": gen.with_coords(tgt, tpos)}
 
